@@ -306,10 +306,15 @@ def check_subdiv(repo):
     loop = loop[0]
     acc_t = acc_y = None
     callst = None
+    from ..sym import inline_locals
+    env = {k: v for k, v in inline_locals(fn).items() if isinstance(v, ast.Subscript)}      # e.g. basis = self.basis_integrators[k]
     for st in loop.body:
-        if isinstance(st, ast.Assign) and isinstance(st.value, ast.Call) and isinstance(st.value.func, ast.Subscript) and \
-                is_self_attr(st.value.func.value, "basis_integrators"):
-            callst = st
+        if isinstance(st, ast.Assign) and isinstance(st.value, ast.Call):
+            f = st.value.func
+            if isinstance(f, ast.Name) and f.id in env:
+                f = env[f.id]
+            if isinstance(f, ast.Subscript) and is_self_attr(f.value, "basis_integrators"):
+                callst = st
     if callst is None:
         problems.append((loop, "no call of self.basis_integrators[k](...) in the sub-step loop"))
         return problems, fn
